@@ -15,9 +15,9 @@ LEVEL = "model_checking"
 def run(ctx):
     drv = vlib.build_driver("pat")
     quick = ctx.quick()
-    runs = [("glob", "Pattern_globfull.cfg"), ("match", "Pattern_match.cfg"), ("infix", "Pattern_infix.cfg"), ("mb", "Pattern_mb.cfg"), ("range", "Pattern_range.cfg")]
+    runs = [("glob", "Pattern_globfull.cfg"), ("match", "Pattern_match.cfg"), ("infix", "Pattern_infix.cfg"), ("mb", "Pattern_mb.cfg"), ("range", "Pattern_range.cfg"), ("rangefull", "Pattern_rangefull.cfg")]
     if not quick:
-        runs = [("glob", "Pattern_glob4.cfg"), ("match", "Pattern_match5.cfg"), ("infix", "Pattern_infix7.cfg"), ("mb", "Pattern_mb.cfg"), ("range", "Pattern_range3.cfg")]
+        runs = [("glob", "Pattern_glob4.cfg"), ("match", "Pattern_match5.cfg"), ("infix", "Pattern_infix7.cfg"), ("mb", "Pattern_mb.cfg"), ("range", "Pattern_range3.cfg"), ("rangefull", "Pattern_rangefull.cfg")]
     tot = {"cases": 0, "evals": 0, "nontrivial": 0}
     for label, cfg in runs:
         cf = os.path.join(ctx.scratch, "pat-%s.jsonl" % label)
@@ -52,7 +52,7 @@ def run(ctx):
     ctx.cov["exhaustive"] = True
     ctx.cov["rule"] = ("one case per TLC state: (sorted dictionary subset, contiguous block layout, pattern|range); exhaustive over "
                        "tokens of length <= MaxTokLen over {a,b}, dictionaries of <= MaxDict tokens, every composition into blocks, "
-                       "every pattern of <= 3 terms (text <= 2 chars, adjacent wildcards, empty literal); family match: the dictionary of all 63 tokens of length <= 5 in 1 block and in blocks of 7 x every pattern of <= 4 (thorough 5) terms with text <= 3 chars; family mb: byte strings with a two-byte character (dictionaries of <= 3 tokens of <= 4 bytes in every block layout x every pattern of <= 3 terms): borders and hints end inside or next to a multi-byte character; family infix: the dictionary of all 127 (thorough 255) tokens of length <= 6 (7) x every text of length <= 4 (5) between two wildcards, alone and with a one-character prefix / suffix term; every range over the end palette "
+                       "every pattern of <= 3 terms (text <= 2 chars, adjacent wildcards, empty literal); family match: the dictionary of all 63 tokens of length <= 5 in 1 block and in blocks of 7 x every pattern of <= 4 (thorough 5) terms with text <= 3 chars; family mb: byte strings with a two-byte character (dictionaries of <= 3 tokens of <= 4 bytes in every block layout x every pattern of <= 3 terms): borders and hints end inside or next to a multi-byte character; family infix: the dictionary of all 127 (thorough 255) tokens of length <= 6 (7) x every text of length <= 4 (5) between two wildcards, alone and with a one-character prefix / suffix term; every range over the end palette; family rangefull: the whole palette of 19 numeric-looking tokens as one bytewise-sorted dictionary (one block, blocks of 7) x every range (the members of a numeric interval are scattered over the sorted dictionary) "
                        "x open/closed; non-trivial = reference result neither empty nor the whole dictionary; each case is run through 3 code paths; plus 16 (thorough 40) real-size shapes of IndexLayout.tla probed on the active, sealed and reloaded fraction (dictionaries and token tables over several blocks)")
     ctx.assumptions += ["findSubstring is modelled by its contract (leftmost occurrence), the KMP loop itself is exercised only on the Go side",
                         "numeric tokens restricted to the decimal syntax of QueryRef!IsNum (sign + or -, digits with an optional point anywhere, one-digit exponent); upper-case E, hex, inf/nan spellings are not in the palette"]
